@@ -138,6 +138,12 @@ OverloadP(t, ctx, pty, fn) ==
 Overload(t, ctx)  == OverloadP(t, ctx, "int", "Add")
 OverloadF(t, ctx) == OverloadP(t, ctx, "float64", "AddF")
 
-(* the operand types are all specific: the expression is statically typed *)
+(* the operand types are all specific: the expression is statically typed   *)
+(* (C03's soundness claim covers exactly these trees)                        *)
 Typed(t) == t # "any"
+RECURSIVE FullyTyped(_, _)
+FullyTyped(t, ctx) ==
+  /\ TypeOf(t, ctx) \notin {"any", REJECT}
+  /\ \A i \in 1..Len(Kids(t)) :
+        FullyTyped(Kids(t)[i], (IF t.k = "bi" /\ i = 2 THEN TypeOf(t.x, ctx) ELSE ctx))
 =============================================================================
